@@ -261,6 +261,11 @@ func c14Run(pf *poolFrames, ops []poolOp, seq []int, globals0 digest.Sum) (f *co
 			if res.Panic != "" || res.Budget || err != nil {
 				return mk("decode-fails/"+bind.TypeNames[pf.types[o.Frame]], fmt.Sprintf("decode failed: %v %s", err, res.Panic)), true
 			}
+			// before any accessor is called (an accessor may detach a lazily
+			// kept view): the fresh packet and the caller's buffer
+			if ov := digest.SharedMutable(p, &buf); len(ov) > 0 {
+				return mk("aliasing-right-after-decode/"+ov[0].A.Path, fmt.Sprintf("right after the decode, before any accessor was called, the packet and the caller's buffer share mutable memory: %s and %s", ov[0].A.Path, ov[0].B.Path)), true
+			}
 			pool = append(pool, p)
 			obs := c14Obs(p)
 			snap = append(snap, obs)
@@ -280,6 +285,9 @@ func c14Run(pf *poolFrames, ops []poolOp, seq []int, globals0 digest.Sum) (f *co
 			res := guarded(stepBudget(n), func() { err = p.UnmarshalBinary(buf[pf.hdr[o.Frame]:n]) })
 			if res.Panic != "" || res.Budget || err != nil {
 				return mk("decode-into-used-packet-fails/"+bind.TypeNames[pf.types[o.Frame]], fmt.Sprintf("%v %s", err, res.Panic)), true
+			}
+			if ov := digest.SharedMutable(p, &buf); len(ov) > 0 && !shared {
+				return mk("aliasing-right-after-decode/"+ov[0].A.Path, fmt.Sprintf("right after the decode into a used packet, before any accessor was called, the packet and the caller's buffer share mutable memory: %s and %s", ov[0].A.Path, ov[0].B.Path)), true
 			}
 			target = o.Slot
 			snap[o.Slot] = c14Obs(p)
